@@ -1,5 +1,5 @@
 """C18 SOCKS4/4a/5 messages per the RFCs: layouts, bounds, terminators."""
-from an import (logical_root, Tracer, Explorer, STOP, guard_at, strip, strip_casts, walk, fmt, callee, const_eval, leaves, N)
+from an import (logical_root, inexact_steps, Tracer, Explorer, STOP, guard_at, strip, strip_casts, walk, fmt, callee, const_eval, leaves, N)
 from layout import consume_paths, s4_check, lin, lin_str
 from mir import loc_str
 import re
@@ -32,6 +32,12 @@ def bodies(crate, path_re):
     return [b for b in crate.bodies if r.search(b.path)]
 
 
+def _port_inexact(node):
+    """Steps other than moves / conversions / the await machinery between a result's port element and the 16-bit read it comes from."""
+    return inexact_steps(node, lambda y: y.kind == "call" and (y[6] in ("get_u16", "read_u16", "get_u16_le", "read_u16_le", "from_be_bytes")), 16,
+                         extra_calls=("poll", "map_err", "into_future", "new_unchecked", "get_context", "map", "ok_or", "ok_or_else"))
+
+
 # ------------------------------------------------------------------ R1 builder
 def builder_events(facts, b):
     tr = Tracer(facts, b)
@@ -59,7 +65,9 @@ def builder_events(facts, b):
             if x.kind == "call" and x[6] in ("to_be_bytes", "to_le_bytes", "to_ne_bytes"):
                 inner = [y[6] for y in walk(x) if y.kind == "call"]
                 mw = re.search(r"impl [ui](\d+)", x[1] + " " + x[2])
-                return ("int", width if width is not None else (int(mw.group(1)) // 8 if mw else None), x[6][3:5], "port" if "port" in inner else "?")
+                exact_ = not inexact_steps(x[3][0], lambda y: y.kind == "call" and y[6] == "port", 16) if x[3] else True
+                return ("int", width if width is not None else (int(mw.group(1)) // 8 if mw else None), x[6][3:5],
+                        ("port" if exact_ else "port(computed, not the address's port itself)") if "port" in inner else "?")
         if sn.kind == "param":
             return ("rest", sn[2])
         return ("?", fmt(node))
@@ -224,7 +232,9 @@ def check_r4(facts, rep, crate):
             second = f["1"]
             ok3 = third.kind == "param" and third[1] == 1
             ok2 = any(y.kind == "call" and y[6] == "get_u16" for y in walk(second))
-            if ok3 and ok2:
+            if ok3 and ok2 and _port_inexact(second):
+                rep.bad(rid, "result-port-exact", where, "the returned port is computed from the 16 bits that were read (`%s`), not those bits themselves" % _port_inexact(second)[0])
+            elif ok3 and ok2:
                 rep.ok(rid, "result-roles", where, "(dst, port<-get_u16, data<-remaining buffer)")
             else:
                 rep.bad(rid, "result-roles", where, "result tuple is not (address, port, remaining payload)")
@@ -395,7 +405,8 @@ def _check_indexed_writer(facts, rep, rid, b):
                     break
                 if x.kind == "call" and x[6] in ("to_be_bytes", "to_le_bytes"):
                     inner = [y[6] for y in walk(x) if y.kind == "call"]
-                    sd = "port-%s" % x[6][3:5] if "port" in inner else "int-%s" % x[6][3:5]
+                    exact_ = not inexact_steps(x[3][0], lambda y: y.kind == "call" and y[6] == "port", 16) if x[3] else True
+                    sd = ("port-%s" % x[6][3:5] if exact_ else "port(computed)-%s" % x[6][3:5]) if "port" in inner else "int-%s" % x[6][3:5]
                     break
             if im:
                 ev = ("copy", idx_of(im[0][3][1]), sd)
@@ -666,7 +677,9 @@ def check_r3(facts, rep, crate):
             if rt and len(sites) == 5:
                 src = [role_source(tr, rt[k]) for k in ("0", "1", "2")]
                 wsrc = [("read_u8", sites[1]), ("read_address", sites[3]), ("read_u16", sites[4])]
-                if src == wsrc:
+                if src == wsrc and _port_inexact(rt["2"]):
+                    rep.bad(rid, "v5::read_request/port-exact", where, "the returned port is computed from DST.PORT (`%s`), not the value read" % _port_inexact(rt["2"])[0])
+                elif src == wsrc:
                     rep.ok(rid, "v5::read_request/roles", where, "(command<-2nd octet, address<-read_address, port<-read_u16)")
                 else:
                     rep.bad(rid, "v5::read_request/roles", where, "result roles %s, expected %s" % (src, wsrc))
@@ -751,7 +764,9 @@ def check_r3(facts, rep, crate):
                 break
         if rt:
             s0, s2 = role_source(tr, rt["0"]), role_source(tr, rt["2"])
-            if s0 and s0[0] == "read_u8" and s2 and s2[0] == "read_u16":
+            if s0 and s0[0] == "read_u8" and s2 and s2[0] == "read_u16" and _port_inexact(rt["2"]):
+                rep.bad(rid, "v4::read_request/port-exact", where, "the returned port is computed from DSTPORT (`%s`), not the value read" % _port_inexact(rt["2"])[0])
+            elif s0 and s0[0] == "read_u8" and s2 and s2[0] == "read_u16":
                 rep.ok(rid, "v4::read_request/roles", where, "(command<-CD, port<-DSTPORT)")
             else:
                 rep.bad(rid, "v4::read_request/roles", where, "command/port roles are %s/%s" % (s0, s2))
